@@ -28,7 +28,11 @@ def build_demos(repo, builddir, gen_config, tree_hash):
         return bins
     import glob
     for old in glob.glob(os.path.join(builddir, "demos-*")):
-        shutil.rmtree(old, ignore_errors=True)
+        try:
+            if time.time() - os.path.getmtime(old) > 2 * 3600:
+                shutil.rmtree(old, ignore_errors=True)
+        except OSError:
+            pass
     os.makedirs(d, exist_ok=True)
     inc = os.path.join(d, "inc")
     gen_config(inc)
